@@ -21,6 +21,7 @@ import (
 
 	"github.com/Breeze0806/gobinlog/replication"
 	"verif/chk"
+	"verif/e2"
 	"verif/ref"
 )
 
@@ -376,6 +377,12 @@ func mariaGTID(c *Case, st replication.BinlogEvent, f replication.BinlogFormat) 
 }
 
 func replay(kind string, input json.RawMessage) (bool, string) {
+	switch kind {
+	case "headerbytes":
+		return e2.ReplayHeaderBytes(input)
+	case "history":
+		return e2.ReplayHistory(kind, input)
+	}
 	var c Case
 	if err := json.Unmarshal(input, &c); err != nil {
 		return false, err.Error()
@@ -1119,6 +1126,9 @@ func run(r *chk.Run) {
 		sec.fn()
 		r.Set("section_"+sec.name, fmt.Sprintf("%d evaluations in %.1fs", e.evals.Load()-e0, time.Since(t0).Seconds()))
 	}
+	// end to end (engine E2): the same header fields through the packet reader and
+	// the streamer: every leading timestamp byte, a second format description
+	e2.RunHeaderBytes(r)
 	r.Eval(e.evals.Load())
 	r.DistinctN(e.distinct.Load())
 	r.Rule("odometer enumeration of the product of the listed field domains per event kind; every event is built by the independent reference encoder, announced by a reference FORMAT_DESCRIPTION event decoded with Format(), passed through IsValid / header accessors / every Is* predicate / StripChecksum(announced algorithm) / the body accessor, and compared with the abstract values written; the same abstract event is executed in the three checksum configurations and the stripped event must carry exactly the body of the checksum-less twin. evaluations = (event, flavor constructor) executions, distinct = distinct event byte strings (each decoded by one or both flavor constructors)")
